@@ -1,4 +1,4 @@
-import Refine.Lemmas.MixedInterface
+import Refine.Lemmas.MixedCount
 
 /-!
   C02 / C01 / C13 next to the cells refine does not adapt ("non-simplex cells are carried through unchanged", "the
@@ -250,6 +250,45 @@ theorem mixed_interface_conforming_split (m : Mesh P) (n0 n1 new : Nat) (p : P) 
       intro k hk
       exact splitCells_matched (hface k hk) (h k hk)
 
+/-- **split, exact form**: the guarded split keeps, for every triangular face of a pyramid / prism, the NUMBER of tets on
+    it and the number of boundary tris on it -- so C01's statement at that face ("shared by exactly two cells, or by
+    one cell and exactly one boundary triangle", `faceConforming`) has the same truth value before and after: no
+    hanging node and no double cover.  Needs the simplices to have their 4 / 3 vertices, the frozen faces to be proper
+    triangles and the frozen vertices to be valid (then the trial vertex is none of them). -/
+theorem mixed_interface_exact_split (m : Mesh P) (n0 n1 new : Nat) (p : P) (hw : Arity m.g) (hs : SimplexArity m.g)
+    (hp : FacesProper m.g) (hv : FrozenValid m) (hne : n0 ≠ n1) :
+    ∀ k ∈ mixedTriFaces m.g, faceConforming (guardedSplit m n0 n1 new p).2.2.g k = faceConforming m.g k := by
+  intro k hk
+  unfold guardedSplit
+  split_ifs with hg
+  · rfl
+  · have hguard : Guards.splitEdgeMixed m.g n0 n1 = true := by simpa using hg
+    have hnot := guard_face hw hne hguard k hk
+    rcases splitEdge_g m n0 n1 new p with e | e
+    · dsimp only; rw [e]
+    · -- the cells were rewritten: then the trial vertex was fresh
+      by_cases hval : m.valid new = true
+      · -- `ref_node_add` refused: nothing happened
+        have : (splitEdge m n0 n1 new p).2.g = m.g := by
+          unfold splitEdge addNode
+          simp [hval]
+        dsimp only; rw [this]
+      · have hnew : new ∉ k := by
+          intro hin
+          apply hval
+          apply hv new
+          rw [mem_frozenNodes]
+          rcases mem_mixedTriFaces.mp hk with ⟨c, hc, f, hf, rfl⟩ | ⟨c, hc, f, hf, rfl⟩
+          · obtain ⟨x, hx, hx1⟩ := List.mem_map.mp hin
+            exact ⟨c, Or.inr (Or.inl hc), by
+              rw [← hx1]; exact GuardsRules.nd_mem (by rw [hw.pyr c hc]; exact pyr_face_bound f hf x hx)⟩
+          · obtain ⟨x, hx, hx1⟩ := List.mem_map.mp hin
+            exact ⟨c, Or.inr (Or.inr (Or.inl hc)), by
+              rw [← hx1]; exact GuardsRules.nd_mem (by rw [hw.pri c hc]; exact pri_face_bound f hf x hx)⟩
+        have hc := counts_splitCells (g := m.g) (new := new) hs hne (hp k hk) hnew hnot
+        dsimp only; rw [e]
+        exact faceConforming_congr (splitCells_groups m.g n0 n1 new) hc.1 hc.2
+
 /-- **swap**: the 2-D swap removes the two triangles on the edge; a triangular face of a pyramid / prism covered by
     one of them would contain both ends, which the guard refuses -/
 theorem mixed_interface_conforming_swap (m : Mesh P) (n0 n1 : Nat) (hw : Arity m.g) (hp : FacesProper m.g)
@@ -462,6 +501,14 @@ example : (run hexPyrTet [.split 9 10 13 7, .split 4 8 14 7, .move 8 0, .move 13
 /-- ... and the interface stays matched after the accepted split of (9,10) (the tet [7,8,9,10] on the edge is cut) -/
 example : interfaceMatched (guardedSplit hexPyrTet 9 10 13 7).2.2.g = true ∧
     (guardedSplit hexPyrTet 9 10 13 7).2.1 = .ok ∧ (guardedSplit hexPyrTet 9 10 13 7).2.2.g.tet.length = 6 := by decide
+
+/-- the exact form on the same mesh: every triangular face of the pyramid is conforming (one pyramid + one tet) before
+    and after the accepted split -/
+example : (mixedTriFaces hexPyrTet.g).all (faceConforming hexPyrTet.g) = true ∧
+    (mixedTriFaces hexPyrTet.g).all (faceConforming (guardedSplit hexPyrTet 9 10 13 7).2.2.g) = true ∧
+    SimplexArity hexPyrTet.g := by
+  refine ⟨by decide, by decide, ?_, ?_⟩ <;> intro c hc <;> simp [hexPyrTet] at hc
+  · rcases hc with rfl | rfl | rfl | rfl | rfl <;> rfl
 
 /-- what the guard prevents: the unguarded split of the pyramid edge (4,8) leaves the pyramid faces (4,7,8), (4,8,5)
     without a tet (hanging node 13) -/
